@@ -10,7 +10,7 @@ CHECKS = {
  "C01": ("seqx", "DESIGN.md §4 E1, §5 C01",
    "bounded-exhaustive enumeration of RFC 6902 operation sequences on the real code vs. a reference evaluator",
    "Every operation sequence up to the stated depth over an alphabet rebuilt from the current reference state (all resolvable pointers, near-misses, interior negative indices, 8 value shapes + an 80-byte value, 6 operations; from the second operation on also probes for stale internal state: the starting document's values and locations) is executed through DecodePatch+ApplyWithOptions on 15 curated documents with SupportNegativeIndices on and off and the package defaults set to the opposite, and compared with an independent RFC 6902/6901 evaluator through an independent literal-preserving JSON reader. Plus a mini depth-3 phase, a package-defaults phase through Apply and ApplyIndent, and a scale phase (40-member object, 600- and 260-element arrays, 14-level document). Exhaustive within the bound; nothing sampled.",
-   T+"Bounds: depth 2 (+ a mini depth-3 phase) quick; thorough adds a depth-3 phase on 4 core documents with reduced 2nd/3rd alphabets (256 M sequences, 13 min); data outside the alphabets is covered only by the one-representative-per-branch argument (DESIGN section 7 shows where that failed and what was added). Size sweeps (DESIGN section 3): string / name / number-literal documents of every length 0..130 and around 256, 1024, 4096 bytes to depth 2; objects of n members and arrays of n elements around 8..256 to depth 3; a depth-4 micro phase on one document."),
+   T+"Bounds: depth 2 (+ a mini depth-3 phase) quick; thorough adds a depth-3 phase on 4 core documents with reduced 2nd/3rd alphabets (256 M sequences, 13 min); data outside the alphabets is covered only by the one-representative-per-branch argument (DESIGN section 7 shows where that failed and what was added). Size sweeps (DESIGN section 3): string / name / number-literal documents of every length 0..130 and around 256, 1024, 4096 bytes to depth 2; objects of n members and arrays of n elements around 8..256 to depth 3; a depth-4 micro phase on one document. Patch-length scripts (one step repeated 0..70, ~128, ~256 times, then each of ~18 probes) and products of a size and a position (sized documents as element 17 of an array member and nine levels down)."),
  "C02": ("mergex", "DESIGN.md §4 E2, §5 C02",
    "exhaustive enumeration of (document, merge patch) edges over value families vs. RFC 7396 pseudo-code",
    "All edges D x P over enumerated value families (every JSON value of bounded depth/width over a small name and scalar alphabet, incl. type changes at depth 3 and nulls inside arrays) are run through MergePatch and compared with the RFC 7396 pseudo-code on independent trees; documents and patches are also fed in reordered / whitespace / escaped spellings.",
@@ -26,7 +26,7 @@ CHECKS = {
  "C05": ("seqx+mergex", "DESIGN.md §4 E1/E2, §5 C05",
    "C01's enumeration judged with ordered, literal-exact equality, plus all merge edges judged for member order",
    "The reference evaluator tracks member order exactly as the statement prescribes; every in-domain sequence (incl. the empty patch) must yield the same members in the same order with byte-identical number literals (documents carry 1.0, 1e400, -0, 23-digit integers). MergePatch edges: survivors lead in document order, literals untouched.",
-   T+"Bounds as C01 / C02. Size sweeps as C01 (depth 2)."),
+   T+"Bounds as C01 / C02. Size sweeps as C01 (depth 2). Also every string of <= 4 tokens over {a, blank, <, escaped backslash, escaped quote, \\n, \\u00e9, raw two-byte character} as value / name / nested value under both escape settings; patch-length scripts (one step repeated 0..70, ~128, ~256 times, then a probe); products of a size and a position."),
  "C06": ("mergex+bytex", "DESIGN.md §4 E2/E3, §5 C06",
    "exhaustive enumeration of ordered pairs of values x spellings, and of all short byte strings, vs. reference structural equality",
    "Equal is compared with reference structural equality on all ordered pairs of the value family, each value also reordered, whitespace-padded and \\u-escaped (null roots, nulls in arrays, array vs null included); agreement with an equivalence relation on the whole set yields reflexivity/symmetry/transitivity there. Every string over 16 symbols up to length 4/5 against {itself, {}, [], {\"a\":1}, null}: malformed => false.",
@@ -38,7 +38,7 @@ CHECKS = {
  "C08": ("seqx", "DESIGN.md §4 E1, §5 C08",
    "bounded-exhaustive enumeration of failing operation sequences under cause-changing option combinations; errors.Is/As class vs. reference cause; one-step extension invariance",
    "Every failing sequence up to depth 2 under 10 option combinations is judged: nil document, non-nil error, ErrTestFailed iff the reference cause is an unequal test, *AccumulatedCopySizeError iff the copy limit, ErrMissing for absent members / unreachable parents; each failing prefix is re-run with further operations appended and must give the identical outcome.",
-   T+"Where two causes coincide (limit exceeded and inapplicable add) either class is accepted, as the statement leaves it open."),
+   T+"Where a copy crosses the limit and its destination parent is also unreachable (a cause with a class of its own) either class is accepted; a bad destination index has no class in the statement, so there the limit error is demanded. On 8 documents with repeated member names (no value oracle) the library is compared with itself: after k removes of a member, remove / copy-from / move-from / replace must agree on whether it is there."),
  "C11": ("decodex", "DESIGN.md §4 decodex, §5 C11",
    "systematic enumeration of all single and pairwise member mutations of valid operations, plus all short byte strings, vs. an acceptance predicate transcribed from the statement",
    "About 12 000 patch texts (all single and all pairs - thorough: triples - of delete / retype / rename-by-case / escape / duplicate mutations on one valid operation per kind, in three positions; element- and root-type changes) and every 16-symbol string up to length 4/5 are fed to DecodePatch; accept/reject must equal the reference predicate; accepted patches have Kind/Path/From/ValueInterface compared with independently decoded members.",
@@ -54,11 +54,11 @@ CHECKS = {
  "C14": ("seqx", "DESIGN.md §4 E1, §5 C14",
    "exhaustive enumeration of add paths of 1..L tokens over a token alphabet, followed by every further operation; reference ensure+add with ordered equality, path lookup, plain-add agreement",
    "Every add path of up to 3 (thorough 4) tokens over {a, b, 'a/b', 'm~n', 0, 1, 2} ('-' last) is applied with the option on to documents in which every prefix length already exists, followed by every operation of Sigma(D); oracle: reference result with ordered equality (frame condition), the value is found at the path, and equality with plain add wherever plain add succeeds.",
-   T+"Null/scalar on the path, negative indices and '-' before the last token are outside the stated domain."),
+   T+"Null/scalar on the path, negative indices and '-' before the last token are outside the stated domain. Also member names that look numeric without being indices (Arabic-Indic, Devanagari, fullwidth digits, 1e2, 0x1, 1.0)."),
  "C15": ("seqx+mergex", "DESIGN.md §4 E1/E2, §5 C15",
    "bounded-exhaustive enumeration over documents/values with HTML, Unicode and control characters x EscapeHTML x indent strings; byte-level oracles and a test-deletion differential",
    "Every successful output (Apply under both escape settings; MergePatch, MergeMergePatches, CreateMergePatch) must be accepted by the independent reader, be UTF-8 given UTF-8 input and equal the reference value; escape on => none of the five characters raw; off => no escape not already spelled in the inputs; ApplyIndent equals the independently re-indented Apply output for 3 indents; deleting passing test operations leaves the bytes identical.",
-   T+"Byte-identity clauses quantify over documents spelled as the encoder spells them. Size sweep: string documents of every length 0..130 and around 256..4096 to depth 2."),
+   T+"Byte-identity clauses quantify over documents spelled as the encoder spells them. Size sweep: string documents of every length 0..130 and around 256..4096 to depth 2. New member names that need escaping (quote, backslash, control character, U+2028) are offered as targets; the ApplyIndent = re-indented Apply relation and well-formedness are also judged where the value oracle says DontCare (root replaced by null, repeated names); string token shapes as C05."),
  "C16": ("scanx+bytex", "DESIGN.md §4 E3, §5 C16",
    "reachability over the synchronous product of the real scanner automaton with a reference pushdown recogniser (all 256 bytes per state), plus exhaustive short strings into codec functions and entry points",
    "The library's private scanner is cloned and single-stepped (observation file injected by overlay) in lock-step with a reference recogniser; BFS over the product with stacks to depth 4 compares end-of-input acceptance in every reachable state: language equality for inputs of every length at that nesting. All strings over 33 byte classes up to length 5/6 whose proper prefixes are viable test Valid/Compact/Indent/Unmarshal/UnmarshalWithKeys; accepted strings (with whitespace around) and all 16-symbol strings up to 4/5 go to every public entry point; nesting at 10000/10001 levels.",
@@ -74,15 +74,15 @@ CHECKS = {
  "C09": ("histx", "DESIGN.md §4 E5, §5 C09",
    "explicit-state breadth-first search over call histories on the real code, with every sync.Pool answer and every map iteration order an explorer-owned choice; state = dump of all process-wide library state; oracle = outcome equals the solo outcome, inputs unchanged",
    "All histories of up to 3 calls (default pool answers and map orders) and of up to 2 calls with one deviation (thorough: 4/0, 3/1, 2/2) from a menu of 55 exported-API calls over ONE shared set of decoded Patch values and input buffers (successes, failures, malformed inputs, both packages), built against a shim of the sync package so that which pooled decoder/encoder/scanner object a Get returns (most recent, any other, or a fresh one) and the order of every map iteration are enumerated within a deviation budget. States are merged on a generic dump of every package-level variable of the library packages (incl. every private field of every recycled object); every transition is judged: same error text / same bytes (Apply, ApplyIndent, CreateMergePatch, Equal) / same JSON value as the call made alone in a brand-new process (one subprocess per menu entry), no shared buffer, Patch or ApplyOptions value changed, results returned earlier still hold their bytes, and a caller overwriting a returned slice does not change the next call.",
-   T+"Closure of the state space is not reached with the exact dump (recycled objects remember their last input), so the claim is bounded by depth; the dump omits slice capacity and elements beyond len. Only exported functions are driven. The menu shares ONE ApplyOptions value (limit 40, AllowMissingPathOnRemove on) between five calls incl. a failing move, and carries v5 and legacy patches with values beyond 1 KiB that later operations walk into."),
+   T+"Closure of the state space is not reached with the exact dump (recycled objects remember their last input), so the claim is bounded by depth; the dump omits slice capacity and elements beyond len. Only exported functions are driven. The menu shares ONE ApplyOptions value (limit 40, AllowMissingPathOnRemove on) between five calls incl. a failing move, and carries v5 and legacy patches with values beyond 1 KiB that later operations walk into. decodeBufferReuse: a patch decoded from a buffer the caller later refills with another patch must go on behaving as decoded (both packages). A second legacy patch with null entries is snapshot-compared. Cold histories restore every unexported pointer-free package-level variable of the library to its process-start value."),
  "C10": ("schedx", "DESIGN.md §4 E6, §5 C10",
    "stateless depth-first exploration of every schedule of 2-3 goroutine harnesses up to a preemption bound under a controlled scheduler on the real code (sync shim + injected statement points), plus a free-running race-detector pass over the same bodies",
    "Every unordered pair of 11 exported-API calls (and 3-goroutine scenarios) on ONE shared Patch and shared input slices, with cold and warm type caches, is run under a cooperative scheduler that owns every sync.Pool/Map/WaitGroup operation of the codec (configuration A) and additionally every statement boundary of the functions touching them, an atomic, or a package-level variable some function writes (configuration B); all schedules within the preemption bound are enumerated (Pool.Get answers share the budget), each complete schedule judged: every call returns its solo outcome, inputs and Patch unchanged, no panic, no deadlock. Replays are deterministic (map iteration fixed at build time; the default schedule is run twice). The 'no data race' clause is decided by the Go race detector on the same bodies running freely over a mutex-guarded global pool (so goroutines really exchange pooled objects).",
-   T+"The race half is detection on executed accesses, not enumeration; it is reported separately in the evidence (race_pass). Standard-library internals are trusted. The legacy package is covered by the race half only."),
+   T+"The race half is detection on executed accesses, not enumeration; it is reported separately in the evidence (race_pass). Standard-library internals are trusted. The legacy package is covered by the race half only. Cold scenarios restore every unexported pointer-free package-level variable of the library packages to its process-start value (lazily built tables, flags), so the window of a first-use initialisation is schedulable in every execution; the race pass ends with a cold-start sub-pass (each scenario as the first calls of a brand-new process). Scenarios include two calls on one patch, one 78 KB document and one options value differing only in the indent (<= 1 preemption)."),
  "C17": ("codecx", "DESIGN.md §4 E4, §5 C17",
    "bounded-exhaustive enumeration of JSON texts x spellings, of run-time generated Go types x values x texts, and of Decoder scripts x every split of the stream into reads, each compared with an independent reader or with encoding/json",
    "(1) Every value of the enumerated family in several spellings plus escape/number specials goes through all four Unmarshal entry points and back through Marshal/MarshalEscaped - on a brand-new codec state (pools emptied before each entry point) and on a recycled one - and must read back as the same value (literals, code points), report keys in document order, and Compact/Indent/HTMLEscape must equal independent implementations. (2) ~600 Go types built at run time (scalars, []byte, any, pointers, slices, arrays, maps, structs with every tag form, name collisions, embedding) x value domains: Marshal / MarshalIndent / MarshalEscaped / Encoder in 6 settings equal encoding/json byte for byte, and every text of a matching+mismatching set decodes into zero and pre-filled targets to encoding/json's value and error-ness. (3) All Decoder scripts up to length 3/4 over 8 streams under every split into <= 3 reads agree step by step with encoding/json.",
-   T+"Relative to the installed standard library; U+0008/U+000C spelling and the Number type are normalised as the property says; ASCII field names."),
+   T+"Relative to the installed standard library; U+0008/U+000C spelling and the Number type are normalised as the property says; ASCII field names. Numeric types also decode per-kind boundary literals (min-1 .. max+1 of int8/uint16/int/uint64 ranges, float32/float64 overflow, underflow and rounding ties; bare, quoted, in arrays and members); pointer chains **T / ***T over the primitive kinds under every tag."),
  "C20": ("cmdx", "DESIGN.md §4 E7, §5 C20",
    "exhaustive enumeration of -p argument lists (order, repetition) over a patch-file menu x stdin documents, each run as a real process of the binary built from the working tree; byte-exact comparison with the library fold and value comparison with the reference fold",
    "Every list of 0..2 (thorough 3) patch files over a 12-file menu (valid non-commuting patches, one applicable only after another, failing test, malformed, unknown op, missing file, directory, empty, empty patch, root-replacing) x 6 stdin documents is executed with both command binaries (v5 cmd, legacy cmd). Success: stdout byte-identical to folding the library's Apply over the files in command-line order, exit 0, value equal to the reference fold. Any unreadable/undecodable/inapplicable patch: empty stdout, non-empty stderr, non-zero exit.",
